@@ -2,9 +2,9 @@
 """Translator output for C16 (DESIGN 4.1): coq/Gen_C16.v, regenerated from /repo's current sources on
 every check (clang JSON AST of AsyncLogging::threadFunc / append, AppendFile::append, LogFile::rollFile).
 
-  AsyncLogging_drain_after_loop : bool   is there, AFTER the `while (running_)` loop of threadFunc, a
-        statement that takes buffers_ (swap) / currentBuffer_ and a statement that hands buffers to
-        `output.append`?  (pinned tree: false -> finding F-8; repaired shape: true)
+  AsyncLogging_drain_after_loop : bool   are there, AFTER the `while (running_)` loop of threadFunc, in this
+        source order: `buffers_.push_back(..currentBuffer_..)`, a swap of `buffers_` into the local
+        vector, and a call `output.append(..)`?  (tree before 440cd2b: false -> finding F-8; now: true)
   AsyncLogging_drop_threshold   : Z      literal of `if (buffersToWrite.size() > L)` guarding the erase
   AsyncLogging_drop_threshold_is_gt : bool   that comparison is `>`
   AsyncLogging_drop_keep        : Z      k of `buffersToWrite.erase(buffersToWrite.begin()+k, ...end())`
@@ -42,18 +42,23 @@ def drain_fact():
     if not idx:
         raise cxxast.Untranslatable("no while loop in threadFunc")
     after = stmts[idx[-1] + 1:]
-    takes, writes = False, False
+    # in source order: buffers_.push_back(..currentBuffer_..)  <  ....swap(buffers_) / buffers_.swap(..)  <  output.append(..)
+    def off(n):
+        return n.get("range", {}).get("begin", {}).get("offset", -1)
+    push = swap = write = None
     for st in after:
-        nm = names_in(st)
-        txt = cxxast.src_text(st, AL)
-        if "buffers_" in nm and ("currentBuffer_" in nm) and ("swap" in nm or "swap" in txt):
-            takes = True
         for n in cxxast.walk(st):
-            if n.get("kind") == "CXXMemberCallExpr":
-                t = cxxast.src_text(n, AL)
-                if re.match(r"\s*output\s*\.\s*append\s*\(", t):
-                    writes = True
-    return (takes and writes), "; ".join(clean(cxxast.src_text(s, AL))[:60] for s in after)
+            if n.get("kind") not in ("CXXMemberCallExpr", "CallExpr"):
+                continue
+            t = clean(cxxast.src_text(n, AL))
+            if re.match(r"buffers_\s*\.\s*push_back\s*\(", t) and "currentBuffer_" in t and push is None:
+                push = off(n)
+            if (re.match(r"\w+\s*\.\s*swap\s*\(\s*buffers_\s*\)", t) or re.match(r"buffers_\s*\.\s*swap\s*\(", t)) and swap is None:
+                swap = off(n)
+            if re.match(r"output\s*\.\s*append\s*\(", t) and write is None:
+                write = off(n)
+    ok = None not in (push, swap, write) and 0 <= push < swap < write
+    return ok, "; ".join(clean(cxxast.src_text(s, AL))[:60] for s in after)
 
 
 def loop_literals():
